@@ -269,6 +269,8 @@ class Check:
             "violations": len(self.violations),
         }
         evp = os.path.join(VERIF, "evidence", f"{self.pid}.json")
+        if os.path.realpath(REPO) != "/repo":  # a scratch tree (seeded change under test): keep /verif/evidence about /repo
+            evp = os.path.join(self.build, "evidence_scratch_tree.json")
         with open(evp, "w") as fh:
             json.dump(ev, fh, indent=1, default=str)
         try:
